@@ -62,9 +62,11 @@ CHECKS = {
  "C10": ("exploration", "runtime monitoring: subscription-model checker over generated multi-connection histories with a fence after every operation (exact per-connection EVENT multisets), concurrent exactly-once variant, race detector",
          "3..5 verified controllers, 2..4 accessories, histories of 40 operations (subscribe, unsubscribe, local set, remote write changing / same value, combined PUT, close FIN/RST, reconnect, join via /pairings); after every operation every live connection is fenced and the EVENTs received are compared with the model; closed connections checked through hc's debug log after bounded progress; concurrent writers on distinct characteristics with connection churn checked offline for exactly-once and under -race (reports filtered to notifyListener / session / context).",
          "trusted base: refctl; hc writes EVENTs synchronously inside the changing call (the fence argument of DESIGN §3.4)", "DESIGN.md §5 C10"),
+ "C13": ("exploration", "runtime monitoring: hostile-message fuzzing per protocol state against real transports in child processes; oracle = captured net/http panic log + well-formed (error) response + honest continuation on the same and on a new connection",
+         "Per case an honest prefix reaches one of six protocol states, then one hostile message of 63 classes (random bytes, structural TLV mutations of the correct next message, short / wrong-tag encrypted data, unknown steps / methods, hostile JSON, HTTP oddities, remote-address reuse) is sent; no panic line attributable to the request, a well-formed response that is an error when the message cannot be processed, and the state-appropriate honest handshake still succeeds on the same connection (at most one rejected start) and on a new one; 'no answer' by bounded progress; a dying child identifies its last logged input.",
+         "trusted base: refctl; net/http's own 400/431 answers count as well-formed; 405 demanded only on the three endpoints that dispatch on the method", "DESIGN.md §5 C13 and §12.6"),
 }
 NOT_YET = {
- "C13": "monitor not built yet in this commit (see DESIGN.md §5 C13)",
 }
 def main():
     checks = []
